@@ -1,7 +1,8 @@
 //! C17: drives the real job table (`Shell::jobs_mut()`: add through `cmd &`, `poll`, `wait_all`,
 //! the `wait %n` builtin) with op sequences whose task completions are controlled through
 //! FIFOs, and prints the table after every op in the format of the model (Conc/EntryJobs.v).
-//! Case fields: <cur|fix> (ignored by the code) then ops: A | F <task> | P | W | J <id>.
+//! Case fields: <cur|fix> (ignored by the code) then ops: A | E | F <task> | P | W | J <id> | M <n> <spec>*n
+//! (E: like A but the job ends with an expansion error; M: `wait %spec...` with specs <number>, + or -).
 //! Job k (k-th `A`, numbered from 1) runs `{ cat <fifo k> >/dev/null; echo x > <marker k>; } &`;
 //! `F k` opens and closes the FIFO for writing, i.e. lets task k finish.
 use crate::util::{hex, panic_msg, unhex_str};
@@ -23,6 +24,23 @@ async fn new_shell() -> Option<brush_core::Shell> {
         .ok()
 }
 
+/// Wall-clock budget of one awaited operation (launch, `wait %..`, `wait_all`): an operation that does not return
+/// within it is a result value (`!timeout:<op>`), not a hang of the harness.
+const OP_BUDGET_SECS: u64 = 4;
+
+/// Runs `f` under the budget; `None` when the budget ran out (the future is dropped, i.e. cancelled).
+async fn with_budget<F: std::future::Future>(f: F) -> Option<F::Output> {
+    let (tx, rx) = tokio::sync::oneshot::channel::<()>();
+    std::thread::spawn(move || {
+        std::thread::sleep(std::time::Duration::from_secs(OP_BUDGET_SECS));
+        let _ = tx.send(());
+    });
+    tokio::select! {
+        r = f => Some(r),
+        _ = rx => None,
+    }
+}
+
 fn fifo(dir: &Path, t: usize) -> PathBuf {
     dir.join(format!("f{t}"))
 }
@@ -33,15 +51,24 @@ fn marker(dir: &Path, t: usize) -> PathBuf {
 /// lets task `t` finish: the writer side of its FIFO is opened (blocks until `cat` has it open)
 /// and closed again
 fn release(dir: &Path, t: usize) {
+    // non-blocking open with a deadline: without a reader the open fails (ENXIO) instead of blocking for ever
+    use std::os::unix::fs::OpenOptionsExt;
+    const O_NONBLOCK: i32 = 0o4000;
     let p = fifo(dir, t);
-    if let Ok(f) = std::fs::OpenOptions::new().write(true).open(p) {
-        drop(f);
+    for _ in 0..1000 {
+        match std::fs::OpenOptions::new().write(true).custom_flags(O_NONBLOCK).open(&p) {
+            Ok(f) => {
+                drop(f);
+                return;
+            }
+            Err(_) => std::thread::sleep(std::time::Duration::from_millis(5)),
+        }
     }
 }
 
 fn wait_marker(dir: &Path, t: usize) {
     let m = marker(dir, t);
-    for _ in 0..6000 {
+    for _ in 0..1600 {
         if m.exists() {
             return;
         }
@@ -98,19 +125,27 @@ async fn run_case(k: usize, c: &[String]) -> Vec<String> {
     let mut fresh = 1usize;
     let mut released: std::collections::HashSet<usize> = std::collections::HashSet::new();
     let mut i = 0;
-    while i < ops.len() {
+    let mut stuck = false;
+    while i < ops.len() && !stuck {
         match ops[i].as_str() {
-            "A" => {
+            "A" | "E" => {
+                // E: the job ends with an expansion error after its marker is written
                 let t = fresh;
                 fresh += 1;
                 let _ = std::process::Command::new("mkfifo").arg(fifo(&dir, t)).status();
+                let tail = if ops[i] == "E" { " : ${nope_such_var:?gone};" } else { "" };
                 let script = format!(
-                    "{{ cat {} >/dev/null; echo x > {}; }} &",
+                    "{{ cat {} >/dev/null; echo x > {};{} }} &",
                     fifo(&dir, t).display(),
-                    marker(&dir, t).display()
+                    marker(&dir, t).display(),
+                    tail
                 );
-                let _ = shell.run_string(script, &si, &params).await;
-                out.push(show_table(&shell));
+                if with_budget(shell.run_string(script, &si, &params)).await.is_none() {
+                    out.push(format!("!timeout:{}", ops[i]));
+                    stuck = true;
+                } else {
+                    out.push(show_table(&shell));
+                }
                 i += 1;
             }
             "F" => {
@@ -130,7 +165,7 @@ async fn run_case(k: usize, c: &[String]) -> Vec<String> {
             "P" => {
                 // poll until no job whose task has been released is left (bounded)
                 let mut removed: Vec<String> = vec![];
-                for _ in 0..4000 {
+                for _ in 0..1200 {
                     match shell.jobs_mut().poll() {
                         Ok(res) => {
                             for (j, _) in &res {
@@ -169,10 +204,14 @@ async fn run_case(k: usize, c: &[String]) -> Vec<String> {
                         release(&d, t);
                     }
                 });
-                let r = shell.jobs_mut().wait_all().await;
+                let r = with_budget(shell.jobs_mut().wait_all()).await;
                 let mut line = match r {
-                    Ok(jobs) => format!("ret={}", ids(&jobs.iter().collect::<Vec<_>>())),
-                    Err(_) => "ret=!err".to_string(),
+                    Some(Ok(jobs)) => format!("ret={}", ids(&jobs.iter().collect::<Vec<_>>())),
+                    Some(Err(_)) => "ret=!err".to_string(),
+                    None => {
+                        stuck = true;
+                        "ret=!timeout:W".to_string()
+                    }
                 };
                 // the property itself: when wait_all returns, every live job's effects are visible
                 let missing: Vec<String> = live
@@ -192,32 +231,70 @@ async fn run_case(k: usize, c: &[String]) -> Vec<String> {
                 out.push(line);
                 i += 1;
             }
-            "J" => {
-                let id: usize = ops.get(i + 1).and_then(|s| s.parse().ok()).unwrap_or(0);
-                let target = shell.jobs().jobs.iter().find(|j| j.id == id).map(task_of);
-                let mut th = None;
-                if let Some(t) = target {
-                    if t != 0 && !released.contains(&t) {
-                        let d = dir.clone();
-                        th = Some(std::thread::spawn(move || {
-                            std::thread::sleep(std::time::Duration::from_millis(20));
-                            release(&d, t);
-                        }));
-                        released.insert(t);
+            "J" | "M" => {
+                // `wait %s1 %s2 ...`: J <id> is M 1 <id>. The harness resolves the specs on its own (by job
+                // number / by the current and previous marks) to know which tasks to let finish and which
+                // markers must exist when `wait` returns.
+                let (specs, used): (Vec<String>, usize) = if ops[i] == "J" {
+                    (vec![ops.get(i + 1).cloned().unwrap_or_default()], 2)
+                } else {
+                    let n: usize = ops.get(i + 1).and_then(|s| s.parse().ok()).unwrap_or(0);
+                    ((0..n).filter_map(|k| ops.get(i + 2 + k).cloned()).collect(), 2 + n)
+                };
+                let mut targets: Vec<usize> = vec![];
+                for sp in &specs {
+                    let found = match sp.as_str() {
+                        "+" => shell.jobs().jobs.iter().find(|j| j.is_current()).map(task_of),
+                        "-" => shell.jobs().jobs.iter().find(|j| j.is_prev()).map(task_of),
+                        num => {
+                            let id: usize = num.parse().unwrap_or(0);
+                            shell.jobs().jobs.iter().find(|j| j.id == id).map(task_of)
+                        }
+                    };
+                    if let Some(t) = found {
+                        if t != 0 {
+                            targets.push(t);
+                        }
                     }
                 }
-                let _ = shell.run_string(format!("wait %{id}"), &si, &params).await;
-                let mut line = show_table(&shell);
-                if let Some(t) = target {
-                    if t != 0 && !marker(&dir, t).exists() {
-                        line.push_str(&format!("!unfinished:{t}"));
+                let todo: Vec<usize> = targets.iter().copied().filter(|t| !released.contains(t)).collect();
+                let d = dir.clone();
+                let td = todo.clone();
+                let th = std::thread::spawn(move || {
+                    std::thread::sleep(std::time::Duration::from_millis(20));
+                    for t in td {
+                        release(&d, t);
                     }
+                });
+                for t in &todo {
+                    released.insert(*t);
                 }
-                if let Some(th) = th {
-                    let _ = th.join();
+                let cmd = format!(
+                    "wait {}",
+                    specs.iter().map(|s| format!("%{s}")).collect::<Vec<_>>().join(" ")
+                );
+                let st = match with_budget(shell.run_string(cmd.clone(), &si, &params)).await {
+                    Some(Ok(r)) => u8::from(r.exit_code).to_string(),
+                    Some(Err(_)) => "!err".to_string(),
+                    None => {
+                        stuck = true;
+                        format!("!timeout:{cmd}")
+                    }
+                };
+                let mut line = format!("s={st}");
+                let missing: Vec<String> = targets
+                    .iter()
+                    .filter(|t| !marker(&dir, **t).exists())
+                    .map(ToString::to_string)
+                    .collect();
+                if !missing.is_empty() {
+                    line.push_str(&format!("!unfinished:{}", missing.join(",")));
                 }
+                let _ = th.join();
+                line.push('|');
+                line.push_str(&show_table(&shell));
                 out.push(line);
-                i += 2;
+                i += used;
             }
             _ => {
                 out.push("!badop".to_string());
@@ -234,7 +311,9 @@ async fn run_case(k: usize, c: &[String]) -> Vec<String> {
         }
     })
     .await;
-    let _ = shell.jobs_mut().wait_all().await;
+    if !stuck {
+        let _ = with_budget(shell.jobs_mut().wait_all()).await;
+    }
     drop(shell);
     let _ = std::fs::remove_dir_all(&dir);
     out
